@@ -405,12 +405,12 @@ func runCompleteness(s *system, pt point, seedIdx int) bool {
 }
 
 // degenerate names the coordinates of a point whose witness is the neutral element (zero
-// scalar / integer, nonce 1): there e·w vanishes, so such points get their own signatures and
+// scalar / integer, nonce ±1): there e·w vanishes (or depends on the parity of e only), so such points get their own signatures and
 // cannot mask a defect that shows at regular points.
 func degenerate(pt point) string {
 	var d []string
 	for k, v := range pt {
-		if v == "0" || (k == "nonce" && v == "1") {
+		if v == "0" || (k == "nonce" && (v == "1" || v == "N-1")) {
 			d = append(d, k+"="+v)
 		}
 	}
